@@ -1746,6 +1746,82 @@ def rule_broker(prog):
     def from_broker(x):
         return x["p"] == b["p"] or x["p"].startswith(b["p"] + "::")
 
+    last_seg = last
+
+    def _is_some_pat(p_):
+        p_ = p_ or {}
+        return p_.get("k") == "TupleStruct" and last_seg((p_.get("res") or {}).get("ctor_of", "") or p_.get("path", "") or "") == "Some"
+
+    _opts_cache = {}
+
+    def opts_of(x, depth=0):
+        """Locals of x that are Some(..) exactly when the diagnostics flag is set (`if flag { Some(&iotx) } else { None }`,
+        `flag.then_some(..)`), or parameters that receive such a value at every call site."""
+        if x["p"] in _opts_cache:
+            return _opts_cache[x["p"]]
+        _opts_cache[x["p"]] = set()
+        res = set()
+        for l in hir.nodes(x["body"], "Let"):
+            if l["pat"].get("k") != "Binding" or l.get("init") is None:
+                continue
+            i_ = hir.strip(l["init"])
+            if i_.get("k") == "If" and is_flag(i_["cond"]) and i_.get("else") is not None:
+                t_, e_ = hir.strip(i_["then"]), hir.strip(i_["else"])
+                if t_.get("k") == "Call" and last_seg((hir.path_def(t_["f"]) or {}).get("ctor_of", "")) == "Some" and \
+                        e_.get("k") == "Path" and last_seg(e_["res"].get("ctor_of", "")) == "None":
+                    res.add(l["pat"]["id"])
+            elif i_.get("k") == "MethodCall" and i_["m"] in ("then_some", "then") and is_flag(i_["recv"]):
+                res.add(l["pat"]["id"])
+            else:
+                pl_ = hir.path_local(i_)
+                if pl_ and pl_["id"] in res:
+                    res.add(l["pat"]["id"])
+        if not from_broker(x) and depth < 3:
+            sites_ = []
+            for y in c.bodies:
+                if "/tests" in c.file_of(y["sp"]):
+                    continue
+                for m in hir.nodes(y["body"], "Call"):
+                    if hir.callee(m) == x["p"]:
+                        sites_.append((y, m))
+            for idx_, pp in enumerate(x["params"]):
+                if pp.get("k") != "Binding" or not sites_:
+                    continue
+                if all(idx_ < len(m["args"]) and (hir.path_local(m["args"][idx_]) or {}).get("id") in opts_of(y, depth + 1)
+                       for y, m in sites_):
+                    res.add(pp["id"])
+                    # async fn: `let p = p;`
+                    for l in hir.nodes(x["body"], "Let"):
+                        if l["pat"].get("k") == "Binding" and (hir.path_local(l.get("init") or {}) or {}).get("id") == pp["id"]:
+                            res.add(l["pat"]["id"])
+        _opts_cache[x["p"]] = res
+        return res
+
+    def opt_guard(x, n, parents):
+        opts = opts_of(x)
+        if not opts:
+            return False
+        chain_ = list(parents) + [n]
+        for i_, p in enumerate(chain_[:-1]):
+            k_ = p.get("k")
+            if k_ == "If" and _contains(p["then"], n):
+                cnd = hir.strip(p["cond"])
+                if cnd.get("k") == "LetExpr" and _is_some_pat(cnd.get("pat")) and (hir.path_local(cnd.get("init") or {}) or {}).get("id") in opts:
+                    return True
+            if k_ == "Match" and (hir.path_local(p["scrut"]) or {}).get("id") in opts:
+                for arm in p["arms"]:
+                    if _contains(arm["body"], n) and _is_some_pat(arm["pat"]):
+                        return True
+            if k_ == "Block":
+                for st_ in p["stmts"]:
+                    if st_ is chain_[i_ + 1] or _contains(st_, n):
+                        break
+                    if st_.get("k") == "Let" and st_.get("els") and _is_some_pat(st_["pat"]) and \
+                            (hir.path_local(st_.get("init") or {}) or {}).get("id") in opts and \
+                            any(x_.get("k") in ("Ret", "Continue", "Break") for x_ in hir.nodes(st_["els"])):
+                        return True
+        return False
+
     def local_enum(e):
         ap = hir.adt_path(c, e["t"]) or ""
         return ap.startswith("lsp4spl::") and not ap.endswith("DocumentRequest") and (c.adts.get(ap) or {}).get("k") == "enum"
@@ -1769,6 +1845,8 @@ def rule_broker(prog):
                 if cnd_.get("k") == "Unary" and cnd_.get("op") in ("!", "Not") and is_flag(cnd_["e"]) and \
                         any(x_.get("k") == "Ret" for x_ in hir.nodes(in_["then"])) and in_.get("else") is None:
                     return True
+        if opt_guard(x, n, parents):
+            return True
         opaque = False
         for p in parents:
             if p.get("k") == "Match" and not _contains(p["scrut"], n) and local_enum(hir.strip_ref(hir.strip(p["scrut"]))):
@@ -2043,14 +2121,17 @@ def rule_text_sync(prog):
         out.add("document::to_text_changes", "the temporary text receives the same range and text as the TextChange", ok,
                 c.loc(rr[0]["sp"]), "", ("batch",))
     # every String whose length/positions feed a TextChange.range inside the per-change step is the temp text
-    clos = [n for n in hir.nodes(b["body"], "Closure")] or [n for n in hir.nodes(b["body"], "ForLoop")]
+    def _has_lit(n):
+        return any((st.get("adt") or "") == "spl_frontend::TextChange" for st in hir.nodes(n["body"], "Struct"))
+    # the per-change step: the outermost closure / loop body that builds the TextChange
+    clos = [n for n in hir.nodes(b["body"]) if n.get("k") in ("Closure", "ForLoop") and _has_lit(n)]
     if clos and temp:
         clo = clos[0]
         inner_defs = set()
         for l in hir.nodes(clo["body"], "Let"):
             for bd in hir.pat_bindings(l["pat"]):
                 inner_defs.add(bd["id"])
-        for pp in (clo.get("params") or [clo["pat"]]):
+        for pp in (clo.get("params") or ([clo["pat"]] if "pat" in clo else [])):
             for bd in hir.pat_bindings(pp):
                 inner_defs.add(bd["id"])
         outer = {}
